@@ -238,6 +238,15 @@ OpExtend ==
   /\ ResSame(E.w)
   /\ issued' = [issued EXCEPT ![E.w] = @ \cup Rng(ids)]
 
+(* a batch whose columns have different lengths, built through the safe constructor: must be
+   refused (panic) and leave the world untouched *)
+OpExtendRagged ==
+  /\ Chk("C18", "ragged-batch-accepted-by-safe-constructor", E.res.rejected)
+  /\ Chk("C05", "ragged-columns-reached-the-store", E.res.rejected)
+  /\ Chk("C01", "rejected-batch-changed-the-world", E.res.rejected => Post = Pre)
+  /\ ResSame(E.w)
+  /\ issued' = [issued EXCEPT ![E.w] = @ \cup (IF "ids" \in DOMAIN E.res THEN Rng(E.res.ids) ELSE {})]
+
 OpRemove ==
   /\ IF E.id \in DOMAIN Pre
      THEN /\ Chk("C01", "remove-live-set", DOMAIN Post = (DOMAIN Pre) \ {E.id})
@@ -339,6 +348,7 @@ SameValuesFreshTokens(src, dst, prop) ==
 OpClone ==
   /\ SameValuesFreshTokens(E.w, E.dst, "C10")
   /\ Chk("C10", "clone-not-equal-to-source", PostWs[E.dst].live /\ PostWs[E.dst].eq[E.w] /\ PostWs[E.w].eq[E.dst])
+  /\ Chk("C16", "clone-compares-unequal", PostWs[E.dst].live /\ PostWs[E.dst].eq[E.w] /\ PostWs[E.w].eq[E.dst])
   /\ issued' = [issued EXCEPT ![E.dst] = issued[E.w]]
 
 OpCloneFrom ==
@@ -350,6 +360,7 @@ OpSerde ==
   /\ IF E.res.ok
      THEN /\ SameValuesFreshTokens(E.w, E.dst, "C06")
           /\ Chk("C06", "round-trip-not-equal", PostWs[E.dst].live /\ PostWs[E.dst].eq[E.w] /\ PostWs[E.w].eq[E.dst])
+          /\ Chk("C16", "round-trip-compares-unequal", PostWs[E.dst].live /\ PostWs[E.dst].eq[E.w] /\ PostWs[E.w].eq[E.dst])
           /\ issued' = [issued EXCEPT ![E.dst] = issued[E.w]]
      ELSE UNCHANGED issued
 
@@ -602,6 +613,7 @@ LightStep ==
 FullStep ==
   /\ CASE E.op = "insert" -> OpInsert
        [] E.op = "extend" -> OpExtend
+       [] E.op = "extend_ragged" -> OpExtendRagged
        [] E.op = "remove" -> OpRemove
        [] E.op = "clear" -> OpClear
        [] E.op = "add" -> OpAdd
